@@ -175,6 +175,34 @@ def run(F, rep, tier):
                               "it is never evaluated for an empty collection (e.g. function types without parameters)" % (nm, line), "%s:%s" % (FILE, line))
     rep.floor(r2, "recursive component calls", ncalls, 10)
 
+    # ---- R16.5: coerced() trusts Value::type_of; for the composite kinds it must look at every component
+    r5 = rep.rule("R16.5", "Value::type_of derives the type of a list / context from all of its items / entries (a loop or iterator over the components that calls type_of on each)")
+    tof = F.hir.get("dmntk_feel::values::Value::type_of")
+    if tof is None:
+        rep.missing_anchor(r5, "dmntk_feel::values::Value::type_of")
+    else:
+        seen_k = set()
+        for m, _ in find_hir(tof["body"], lambda x: x.get("k") == "Match" and x.get("src") == "Normal"):
+            for arm in m["arms"]:
+                kinds = [c.split("::")[-1] for c in hirflow.Flow.pat_ctors(arm["p"]) if isinstance(c, str) and c.startswith("dmntk_feel::values::Value::")]
+                for kind in kinds:
+                    if kind not in ("List", "Context"):
+                        continue
+                    seen_k.add(kind)
+                    rec = lambda x: x.get("k") in ("MethodCall", "Call") and (x.get("callee") or "").endswith("values::Value::type_of")
+                    in_loops = [c for lp, _ in find_hir(arm["b"], lambda x: x.get("k") == "Loop") for c, _ in find_hir(lp, rec)]
+                    in_closures = [c for mc, _ in find_hir(arm["b"], lambda x: x.get("k") == "MethodCall" and x.get("method") in ("all", "any", "map", "fold", "try_fold", "find", "position", "filter", "for_each", "filter_map", "find_map", "skip_while", "take_while"))
+                                   for a in mc.get("args", []) if strip(a).get("k") == "Closure" for c, _ in find_hir(strip(a)["body"], rec)]
+                    key = "type_of:%s" % kind
+                    if in_loops or in_closures:
+                        rep.ok(r5, key, "every %s is typed (%d recursive call(s) under iteration)" % ("item" if kind == "List" else "entry", len(in_loops) + len(in_closures)))
+                    else:
+                        rep.violation(r5, key, "Value::type_of does not iterate over the %s of a %s: a value whose later components have another type is reported with the type of the first, "
+                                      "so coerced() returns it unchanged although it does not conform" % ("items" if kind == "List" else "entries", kind.lower()), "%s:%s" % (tof["file"], arm.get("l")))
+        for kind in ("List", "Context"):
+            if kind not in seen_k:
+                rep.missing_anchor(r5, "arm of Value::type_of for Value::%s" % kind)
+
     # ---- R16.4
     fl = hirflow.Flow(coe)
     outs = list(fl.returns)
